@@ -557,9 +557,6 @@ func c19Gen(tier string, rng *rand.Rand, emit func(string)) map[string]interface
 		fs, wn := c19StackFields(ds)
 		space := c19RecSpace(fs, 3, wn)
 		ml := maxLen1
-		if len(space) > 3 && !thorough {
-			ml = 4
-		}
 		counts["exh1"] += c19Lists(space, ml, func(body string) { emitD(ds, body, true) })
 	})
 	// (2) two descriptors: 2 values per key (+ nil for transformer descriptors)
@@ -572,13 +569,10 @@ func c19Gen(tier string, rng *rand.Rand, emit func(string)) map[string]interface
 		}
 		counts["exh2"] += c19Lists(space, ml, func(body string) { emitD(ds, body, false) })
 	})
-	// (3) three descriptors: all PAIRS of records (the full comparator table) over 2 values per key,
-	//     thorough: + nil keys and all triples without nil
+	// (3) three descriptors: all PAIRS of records (the full comparator table) over 2 values per key
+	//     (+ nil for transformer descriptors), thorough: + all triples without nil
 	c19Stacks(3, func(ds []c19D) {
 		fs, wn := c19StackFields(ds)
-		if !thorough {
-			wn = nil
-		}
 		space := c19RecSpace(fs, 2, wn)
 		counts["exh3"] += c19Lists(space, 2, func(body string) { emitD(ds, body, false) })
 		if thorough {
@@ -595,7 +589,7 @@ func c19Gen(tier string, rng *rand.Rand, emit func(string)) map[string]interface
 	})
 
 	// (4) random long lists (beyond the insertion-sort blocks of sort.SliceStable), random stacks
-	nRandom := 2500
+	nRandom := 6000
 	if thorough {
 		nRandom = 30000
 	}
@@ -725,7 +719,7 @@ func c19Gen(tier string, rng *rand.Rand, emit func(string)) map[string]interface
 		"exhaustive": false,
 		"scope": "descriptor stacks: ALL stacks of 1, 2, 3 descriptors over 4 distinct key fields x both directions x field-name/transformer kind; " +
 			"1 descriptor: all lists <= " + strconv.Itoa(maxLen1) + " over 3 key values (+nil for transformers); 2 descriptors: all lists <= 3/4 over 2 values per key (+nil); " +
-			"3 descriptors: all record pairs (full comparator table) over 2 values per key; random lists up to length 60",
+			"3 descriptors: all record pairs (full comparator table) over 2 values per key (+nil for transformers), thorough: + all triples; random lists up to length 60",
 		"counts": counts, "random_length_histogram": lenHist,
 	}
 	return stats
